@@ -15,7 +15,9 @@ PROP["lean_modules"].append("ConduitModel.Props.MonSound")
 PROP["jobs"].append({"harness": "h_stream", "comp": "pipe", "n_quick": 400, "n_thorough": 6000, "timeout": 3000,
                      "why": "v1 clause of C08 (nothing a processor returns can change which position is acknowledged; single-record contract): a trace of "
                             "the real v1 node graph is not a behaviour of the pipeline model (processor position-change refusal, source acks carry the read position)"})
-PROP["lean_modules"] += ["ConduitModel.Props.C01Stream", "ConduitModel.Facts.Stream"]
+PROP["lean_modules"] += ["ConduitModel.Props.C01Stream", "ConduitModel.Props.C09Stream", "ConduitModel.Facts.Stream"]
+from stream_jobs import condmerge_job
+PROP["jobs"].append(condmerge_job(4000, 150000))
 
 # the trees the arch-v2 service builds are the trees Props/MonSound covers (Props/TreeShape, Props/TreeBuilt)
 PROP["jobs"] += tree_jobs()
